@@ -176,7 +176,7 @@ def generate(ctx):
         for _ in range(10):
             k, tok = _pick(rng, n)
             qs.append({"k": k, "tok": tok, "tol": rng.choice([0.0, 1e-6, 1e-3]), "off": rng.randint(0, n),
-                       "interp": rng.choice(["spy", "spy", "nearest", "previous", "next"])})
+                       "interp": rng.choice(["spy", "spy", "nearest", "previous", "next", "linear", "linear"])})
         yield {"part": "intstore", "N": n, "shape": list(shape), "dt": rng.choice([1.0, 0.5, 0.1, 1.3]), "ptr": rng.randrange(n),
                "dtype": rng.choice(["int64", "int32", "bool", "uint8"]), "queries": qs}
 
@@ -286,6 +286,8 @@ def _intstore(ctx, desc):
         if not c["inrange"]:
             continue
         off, tol, name = q["off"], q["tol"], q["interp"]
+        if name == "linear" and desc["dtype"] in ("bool", "uint8"):
+            name = "nearest"       # (the linear kernel subtracts its brackets: not defined for booleans, wraps for unsigned integers)
         ctx.case(f"intstore/{desc['dtype']}/{name}/{'ongrid' if c['ongrid'] else 'offgrid'}/N{n}/dt{dt}")
         ctx.count("nonfloat_storage_selects")
         outs = []
@@ -297,9 +299,22 @@ def _intstore(ctx, desc):
                 got = rt.select(t, fn, tolerance=tol, offset=off)
             except Exception as e:  # noqa: BLE001
                 return ctx.violation(ctx.exc_signature(e, f"intstore.select.{mode}.{name}"), f"{type(e).__name__}: {str(e)[:140]}", rdesc)
-            if got.dtype != dtp or tuple(got.shape) != shape:
+            if (got.dtype != dtp and name != "linear") or tuple(got.shape) != shape:
                 return ctx.violation(f"intstore.select.{mode}.dtype_or_shape", f"{got.dtype} {tuple(got.shape)}", rdesc)
             outs.append(_np(got))
+            if name == "linear":
+                # a kernel whose value between two stored integers is not an integer: the read is the kernel's real-valued result
+                for e in elems:
+                    if c["ongrid"]:
+                        exp = float(model.read(off + c["k"])[e])
+                    else:
+                        older, newer = float(model.read(off + c["kc"])[e]), float(model.read(off + c["kf"])[e])
+                        exp = float(inff.interp_linear(torch.tensor(older, dtype=torch.float64), torch.tensor(newer, dtype=torch.float64),
+                                                       torch.tensor(float(c["elapsed"]), dtype=torch.float64), dt))
+                    ctx.count("real_valued_reads_of_nonfloat_records")
+                    if abs(float(outs[-1][e]) - exp) > 1e-5 * max(1.0, abs(exp)):
+                        return ctx.violation(f"intstore.select.{mode}.linear.value", f"got {outs[-1][e]} expected {exp}", rdesc, {"class": c})
+                continue
             if name == "spy" and not c["ongrid"]:
                 if len(spy.calls) != 1:
                     return ctx.violation(f"intstore.select.{mode}.spy_call_count", f"{len(spy.calls)} calls", rdesc)
@@ -329,7 +344,7 @@ def _intstore(ctx, desc):
                 if outs[-1][e] != exp:
                     return ctx.violation(f"intstore.select.{mode}.{name}.value", f"got {outs[-1][e]} expected {exp}", rdesc, {"class": c})
         if name != "nearest" or c["ongrid"] or abs(c["elapsed"] / dt - 0.5) > 1e-6:
-            if not np.array_equal(outs[0], outs[1]):
+            if not (np.allclose(outs[0], outs[1], rtol=1e-6, atol=1e-6) if name == "linear" else np.array_equal(outs[0], outs[1])):
                 return ctx.violation(f"intstore.select.scalar_ne_tensor.{name}", "scalar-time and tensor-time select disagree", rdesc)
 
 
